@@ -115,6 +115,10 @@ def _install_hook():
 
 
 def run(ctx):
+    # the process time zone is part of the configuration space: nothing the route answers may depend on it
+    import os as _os, time as _time
+    _tz = ['UTC0', 'CET-1', 'EST5', 'JST-9'][ctx.shard[0] % 4]
+    _os.environ['TZ'] = _tz; _time.tzset(); ctx.count('process_tz_' + _tz)
     import os
     import shutil
     import tempfile
@@ -520,7 +524,7 @@ def _run(ctx, root):
         for b in range(0, 12):
             specs.append(('closed', a, b))
     specs += [('closed', 0, 10 ** 12), ('open', 10 ** 12), ('suffix', 10 ** 12), ('closed', 3, 2 ** 63)]
-    ODD = ['items=0-1', 'Bytes=0-1', 'BYTES=1-', 'none=0-0', 'bytes', 'bytes=', 'bytes=-', 'bytes=a-b', 'bytes=0-1,3-4', 'bytes=--1', 'bytes=1-2-3', 'bytes= 0-1', 'bytes=0 - 1', 'bytes=+1-2',
+    ODD = ['items=0-1,4-5', 'seconds=1.5-3.25', 'npt=0:10-0:20', 't=10', 'rows=', 'items=a-b', 'pages=-', 'x=', 'items=0-1', 'Bytes=0-1', 'BYTES=1-', 'none=0-0', 'bytes', 'bytes=', 'bytes=-', 'bytes=a-b', 'bytes=0-1,3-4', 'bytes=--1', 'bytes=1-2-3', 'bytes= 0-1', 'bytes=0 - 1', 'bytes=+1-2',
            'bytes=1_0-', 'bytes=0x1-', 'bytes=1e0-', '=0-1', 'bytes=0-1;q=1', 'bytes=1.5-2', 'bytes 0-1', '']
     jobs = []
     for size in range(0, 10):
